@@ -28,3 +28,28 @@ def ratioValue (cfg : Cfg) (neg : Bool) (nd dd : Bytes) : NumVal :=
   | _, none => .bigratio neg nd dd
 
 end Edn.Spec
+
+namespace Edn.Spec
+open Edn.Model
+
+/-- the number tokens of core EDN and the payload each denotes -/
+inductive CoreNum (cfg : Cfg) : Bytes → NumVal → Prop
+  /-- decimal integer in the signed 64-bit range -/
+  | int (sg ds : Bytes) (neg : Bool) (hs : SignTok sg neg) (hd : DecDigits ds)
+      (hr : if neg then natOfDigits ds ≤ 9223372036854775808 else natOfDigits ds ≤ 9223372036854775807) :
+      CoreNum cfg (sg ++ ds) (.int (if neg then -(natOfDigits ds : Int) else (natOfDigits ds : Int)))
+  /-- decimal integer beyond it -/
+  | big (sg ds : Bytes) (neg : Bool) (hs : SignTok sg neg) (hd : DecDigits ds)
+      (hr : ¬ (if neg then natOfDigits ds ≤ 9223372036854775808 else natOfDigits ds ≤ 9223372036854775807)) :
+      CoreNum cfg (sg ++ ds) (.bigint neg 10 ds)
+  /-- `N` suffix -/
+  | bigN (sg ds : Bytes) (neg : Bool) (hs : SignTok sg neg) (hd : DecDigits ds) :
+      CoreNum cfg (sg ++ ds ++ [0x4E]) (.bigint neg 10 ds)
+  /-- fraction and/or exponent -/
+  | float (tok : Bytes) (h : FloatTok tok) : CoreNum cfg tok (.float (parseDouble cfg tok))
+  /-- `M` suffix -/
+  | bigdec (sg body : Bytes) (neg : Bool) (hs : SignTok sg neg) (hb : DecDigits body ∨ FloatTok body)
+      (hnosign : ∀ c, body.head? = some c → c ≠ 0x2B ∧ c ≠ 0x2D) :
+      CoreNum cfg (sg ++ body ++ [0x4D]) (.bigdec neg body)
+
+end Edn.Spec
